@@ -21,6 +21,7 @@ func init() {
 	zzsv.Register("ZZ_C18_Operands", ZZ_C18_Operands)
 	zzsv.Register("ZZ_C18_LongPrograms", ZZ_C18_LongPrograms)
 	zzsv.Register("ZZ_C18_FunctionTails", ZZ_C18_FunctionTails)
+	zzsv.Register("ZZ_C18_EndOfProgram", ZZ_C18_EndOfProgram)
 }
 
 type zzInstr struct {
@@ -392,5 +393,63 @@ func ZZ_C18_FunctionTails(sv *zzsv.T) {
 		sv.Assert("C18.tails.no_internal_error", !internal)
 	} else {
 		sv.Assert("C18.tails.result", zzSame(sv, out, zInt(1)))
+	}
+}
+
+var zzC18Endings = []string{
+	"if (A) { if (B) { return true; } }",
+	"if (A) { if (B) { x = 1; } else { x = 2; } }",
+	"if (A) { x = 1; } else { if (B) { x = 2; } }",
+	"if (A) { if (B) { if (A > B) { x = 3; } } }",
+	"if (A) { while (B > 0) { B = B - 1; } }",
+	"foreach v in [1, 2] { if (A) { t(v); } }",
+	"foreach v in [1, 2] { if (A) { if (B) { t(v); } } }",
+	"while (A > 0) { A = A - 1; if (B) { t(A); } }",
+	"switch (A) { case 1 { if (B) { x = 1; } } }",
+	"switch (A) { case 1 { x = 1; } default { if (B) { x = 2; } } }",
+	"if (A) { switch (B) { case 1 { x = 1; } } }",
+	"if (A) { B ? 1 : 2; }",
+	"if (A) { x = B ? 1 : 2; }",
+	"function f(p) { if (p) { if (B) { return 1; } } } f(A);",
+	"if (A) { f(B); } function f(p) { if (p) { x = p; } }",
+	"if (A) { } else { }",
+	"if (A) { if (B) { } }",
+}
+
+// ZZ_C18_EndOfProgram: programs (and function bodies) whose last statement
+// is a block nested in a block, with nothing after it: every jump out of the
+// inner and outer blocks has to land on an instruction inside the body - also
+// after the optimizer has removed and merged what follows the blocks - and
+// running with any inputs never fails with one of the machine's internal
+// errors.
+func ZZ_C18_EndOfProgram(sv *zzsv.T) {
+	src := zzC18Endings[sv.Choice("ending", len(zzC18Endings))]
+	switch sv.Choice("prefix", 3) {
+	case 1:
+		src = "x = 1 + 2; " + src
+	case 2:
+		src = "if (1 == 1) { x = 4; } " + src
+	}
+	sv.Note("script", src)
+	a := sv.Int64("A")
+	b := sv.Int64("B")
+	sv.Assume(a >= -1 && a <= 3 && b >= -1 && b <= 3)
+	var trace []object.Object
+	e, err := zzPrepare(sv, src, map[string]zv{"A": zInt(a), "B": zInt(b)}, []string{"A", "B"}, sv.Choice("noopt", 2) == 1, &trace)
+	sv.Assume(err == nil)
+	zzVerifyEval(sv, "C18.end", e)
+	for run := 0; run < 2; run++ {
+		out, rerr := e.Execute(nil)
+		zzDescribe(sv, "result", out, rerr)
+		if rerr != nil {
+			msg := rerr.Error()
+			internal := false
+			for _, m := range []string{"empty stack", "instruction pointer", "unhandled opcode", "out of bounds", "access constant"} {
+				if strings.Contains(msg, m) {
+					internal = true
+				}
+			}
+			sv.Assert("C18.end.no_internal_error", !internal)
+		}
 	}
 }
